@@ -22,7 +22,7 @@ RULE = (
     "param-literal-true/false, param-callable, param-literal-0, param-computed-empty-object (guard with a default), stateIn active leaf (#abs), stateIn active ancestor (plain), stateIn "
     "suffix, stateIn inactive, stateIn inactive sibling whose key is a prefix of the active one's}; depth<=1 formulas are crossed with 3 operand spellings x {guard, cond} x 6 positions "
     "(sole, first-of-two, second-behind-false, parent-behind-false-child, choose branch, enqueueActions check); "
-    "deeper formulas are evaluated in the sole position with spellings rotated; each case = one machine + send(E) + "
+    "deeper formulas are evaluated in the sole position with spellings rotated; SELECTION-TIME: one event answered by three regions whose first transition falsifies the guards (stateIn, not-stateIn, context, and, or) of the other two - guards are judged when selected; each case = one machine + send(E) + "
     "probe; distinct_nontrivial = distinct (formula, spelling, key, position) cases"
 )
 BOUNDS = {
@@ -328,10 +328,67 @@ def units(tier: str) -> List[Any]:
         for i, f in enumerate(chains):
             cases.append((f, i, "guard", "sole"))
     size = 150
-    return [cases[i:i + size] for i in range(0, len(cases), size)]
+    return [cases[i:i + size] for i in range(0, len(cases), size)] + ["selection-time"]
+
+
+SEL_GUARDS = {
+    # guards of the LATER regions, all true in the configuration / context the event arrives in and all falsified by the
+    # transition the FIRST region takes in the same step (it leaves A.a1 and sets ctx.claimed)
+    "stateIn": {"type": "stateIn", "params": {"state": "#m.A.a1"}},
+    "not-stateIn": {"type": "not", "children": [{"type": "stateIn", "params": {"state": "#m.A.a2"}}]},
+    "context": "unclaimed",
+    "and": {"type": "and", "children": ["unclaimed", {"type": "stateIn", "params": {"state": "#m.A.a1"}}]},
+    "or-not": {"type": "or", "children": [{"type": "not", "children": ["gT"]}, "unclaimed"]},
+}
+
+
+def run_selection_time() -> Dict[str, Any]:
+    """A guard is judged when its transition is SELECTED: one event, three regions, the first region's transition changes
+    exactly what the guards of the other two regions look at.  Every guard x {guard, cond} x engine: all three regions
+    move, the fallback candidate behind the guarded one does not run."""
+    res = dict(states=0, transitions=0, executions=0, evaluations=0, distinct_count=0, violations=[], samples=[], caps=[])
+    for gname, gcfg in SEL_GUARDS.items():
+        for key in ("guard", "cond"):
+            cfg = {
+                "id": "m", "type": "parallel", "context": {"claimed": 0},
+                "states": {
+                    "A": {"initial": "a1", "states": {"a1": {"on": {"E": {"target": "a2", "actions": [A.assign({"claimed": 1}), "mk:A"]}}}, "a2": {}}},
+                    "B": {"initial": "b1", "states": {"b1": {"on": {"E": {"target": "b2", key: gcfg, "actions": ["mk:B"]}}}, "b2": {}}},
+                    "C": {"initial": "c1", "states": {"c1": {"on": {"E": [{"target": "c2", key: gcfg, "actions": ["mk:C"]},
+                                                                          {"target": "c3", "actions": ["mk:Cfallback"]}]}}, "c2": {}, "c3": {}}},
+                },
+            }
+            for engine in ENGINES:
+                impls = guard_impls([])
+                impls["unclaimed"] = lambda ctx, ev: ctx["claimed"] == 0
+                h = Harness(cfg, with_plugin=False, extra_guards=impls, budget=None)
+                h._kw["extra_actions"] = {n: h.rec.marker(n) for n in ("mk:A", "mk:B", "mk:C", "mk:Cfallback")}
+                d = h.driver(engine)
+                try:
+                    d.start()
+                    err = d.send("E")
+                    fired = sorted(e[1] for e in d.rec.log if e[0] == "A")
+                    conf = [c for c in d.observe()[0] if c.count(".") == 2]
+                    res["executions"] += 1
+                    res["evaluations"] += 1
+                    res["distinct_count"] += 1
+                    if err is not None or fired != ["mk:A", "mk:B", "mk:C"] or sorted(conf) != ["m.A.a2", "m.B.b2", "m.C.c2"]:
+                        res["violations"].append(dict(
+                            signature=f"C06|guard-not-judged-at-selection-time|{engine}|key={key}", clause="guard-value",
+                            what=f"{engine}: guards true when the event arrived ({gname} under '{key}') but the step fired {fired} and ended in {conf} "
+                                 f"(error {err!r}): a guard was re-read after an earlier transition of the same step",
+                            size=1, replay=dict(kind="selection-time")))
+                finally:
+                    d.close()
+    res["states"] = res["executions"]
+    res["transitions"] = res["evaluations"]
+    res["samples"].append(dict(kind="selection-time", guards=list(SEL_GUARDS), cases=res["executions"]))
+    return res
 
 
 def run_unit(batch):
+    if batch == "selection-time":
+        return run_selection_time()
     res = dict(states=0, transitions=0, executions=0, evaluations=0, distinct_count=0, violations=[], samples=[], caps=[])
     viol: List[Dict[str, Any]] = []
     for f, sp, key, pos in batch:
@@ -352,6 +409,11 @@ def _tup(x):
 
 
 def replay(payload):
+    if payload.get("kind") == "selection-time":
+        r = run_selection_time()
+        for v in r["violations"]:
+            print("  ", v["what"][:300])
+        return r["violations"]
     res = dict(states=0, transitions=0, executions=0, evaluations=0)
     viol: List[Dict[str, Any]] = []
     run_case(_tup(payload["formula"]), payload["spelling"], payload["key"], payload["pos"], res, viol)
